@@ -378,6 +378,60 @@ class CFG:
                     st.append(d)
         return False
 
+    def exists_path_edges(self, src: int, dst: int, avoid_nodes: Iterable[int] = (), forbidden_edges: Iterable[Tuple[int, object]] = ()) -> bool:
+        """Path src ->+ dst that visits none of avoid_nodes (other than the
+        endpoints) and uses none of the (node, label) edges in forbidden_edges."""
+        avoid, forb = set(avoid_nodes), set(forbidden_edges)
+        seen = set()
+        st = [src]
+        while st:
+            n = st.pop()
+            for lab, d, _w in self.nodes[n].succ:
+                if (n, lab) in forb:
+                    continue
+                if d == dst:
+                    return True
+                if d in avoid or d in seen:
+                    continue
+                seen.add(d)
+                st.append(d)
+        return False
+
+    def falsy_edges(self, name: str) -> List[Tuple[int, object]]:
+        """CFG edges along which local `name` is known to be falsy / None:
+        False edge of `if name`, True edge of `if not name` / `name is None` /
+        `name == ""`."""
+        out = []
+        for n in self.nodes:
+            if n.kind != "test":
+                continue
+            t = n.ast
+            neg = False
+            while isinstance(t, ast.UnaryOp) and isinstance(t.op, ast.Not):
+                t = t.operand
+                neg = not neg
+            if isinstance(t, ast.Name) and t.id == name:
+                out.append((n.id, True if neg else False))
+            elif isinstance(t, ast.Compare) and len(t.ops) == 1 and isinstance(t.left, ast.Name) and t.left.id == name:
+                c = t.comparators[0]
+                if isinstance(c, ast.Constant) and not c.value and isinstance(t.ops[0], (ast.Is, ast.Eq)):
+                    out.append((n.id, False if neg else True))
+                elif isinstance(c, ast.Constant) and not c.value and isinstance(t.ops[0], (ast.IsNot, ast.NotEq)):
+                    out.append((n.id, True if neg else False))
+        return out
+
+    def def_reaches_only_when_falsy(self, d: "Def", use: ast.AST) -> bool:
+        """Every path from definition d to the node evaluating `use` (without an
+        intervening redefinition) crosses an edge on which the variable is
+        falsy."""
+        un = self.node_of(use)
+        if un is None or d.node < 0:
+            return False
+        others = [x.node for x in self.defs_of(d.name) if x.node != d.node and x.kind != "delete"]
+        if d.node == un:
+            return False
+        return not self.exists_path_edges(d.node, un, avoid_nodes=others, forbidden_edges=self.falsy_edges(d.name))
+
     def return_nodes(self) -> List[int]:
         return [n.id for n in self.nodes if n.kind == "stmt" and isinstance(n.ast, ast.Return) and n.id in self.reachable()]
 
